@@ -691,6 +691,12 @@ CLIM_T = [0.5, 0.3, 0.7]
 CLIM_RHO = [0.4, 0.8]
 
 
+def _thr(model):
+    if model.get("rho") is not None:
+        return dict(threshold=None, link_density=model["rho"])
+    return dict(threshold=model["t"])
+
+
 class ClimateDriver(Driver):
     name = "ClimateNetwork"
 
@@ -717,7 +723,7 @@ class ClimateDriver(Driver):
     def construct(self, model):
         return self.cls()(grid=geo_grid(),
                           similarity_measure=self.similarity(model),
-                          threshold=model["t"], non_local=model["non_local"],
+                          non_local=model["non_local"], **_thr(model),
                           directed=model["directed"],
                           node_weight_type="surface", silence_level=3)
 
@@ -737,9 +743,12 @@ class ClimateDriver(Driver):
             m["t"] = spec[1]
         elif spec[0] == "set_link_density":
             obj.set_link_density(spec[1])
-            # the threshold the object now reports is its primary input;
+            # current input = the threshold a FRESH object with the same
+            # settings derives for this density (not the one read back from
+            # the object, which may come from stale intermediate state);
             # that it is the right quantile is property C09
-            m["t"] = float(obj.threshold())
+            m["t"] = float(self.construct(
+                dict(model, rho=spec[1])).threshold())
         elif spec[0] == "set_non_local":
             obj.set_non_local(spec[1])
             m["non_local"] = spec[1]
@@ -781,6 +790,7 @@ def climate_data(anomalies=False, window=None, T=10, time_cycle=5,
 class TsonisDriver(ClimateDriver):
     name = "TsonisClimateNetwork"
     max_depth = 3
+    min_depth = 3
 
     def cls(self):
         from pyunicorn.climate import TsonisClimateNetwork
@@ -791,7 +801,7 @@ class TsonisDriver(ClimateDriver):
 
     def construct(self, model):
         return self.cls()(climate_data(T=36, time_cycle=12),
-                          threshold=model["t"],
+                          **_thr(model),
                           non_local=model["non_local"],
                           winter_only=model["winter_only"], silence_level=3)
 
@@ -1510,7 +1520,7 @@ class _DataClimateDriver(ClimateDriver):
         return [self.base_model()]
 
     def kwargs(self, model):
-        return dict(threshold=model["t"], non_local=model["non_local"])
+        return dict(non_local=model["non_local"], **_thr(model))
 
     def construct(self, model):
         return self.cls()(self.data(), silence_level=3, **self.kwargs(model))
